@@ -366,7 +366,7 @@ Euler(retried) ==
   /\ pc = "euler"
   /\ tv' = EulerValue(retried)
   /\ drifted' = (drifted \/ tv' = "drift")
-  /\ stepFresh' = (UsedLap = BuildLap(M, LatestQ, Eff))
+  /\ stepFresh' = (UsedLap = BuildLap(M, LatestQ, BuildFixed))   \* vs. a fresh build with the same fixed_sites / fix_psi
   /\ memoLap' = IF MMemoLpsi THEN UsedLap ELSE <<>>
   /\ pc' = IF cfg.scr THEN "induced" ELSE "finish"
   /\ UNCHANGED <<cfg, hist, aliasvars, opsvars, step, s, curA, prevA, ind>>
